@@ -4,8 +4,12 @@
     the other, each from the lexer the previous one returned"; the loops return exactly a maximal
     such iteration. "Never strands a separator": a step is separator-then-item as one unit
     ([right_of]); when it fails the returned lexer is the one the last accepted step returned.
-    Fuel: the theorems are about results that are not RFuel; that enough fuel exists is C02. *)
-From Tephra Require Import MetricsSpec CLexer LexerFacts Run Peg RunCore RunLoops RunLoopsPeg.
+    Fuel: the theorems are about results that are not RFuel; that enough fuel exists is C02.
+    At the end of the file: the executable specification [PegRep.prep_top] (greedy, bounded, with
+    the stop parser of the until-variants, counting = length of collecting), what it says about the
+    bounds, and the theorem that on well-formed grammars - repetitions nested in repetitions, items
+    from the whole C06 family, syntactically non-nullable - the interpreter computes exactly it. *)
+From Tephra Require Import MetricsSpec CLexer LexerFacts LexerFin Run Peg PegRep RunCore RunLoops RunLoopsPeg RunSafe RunTerm RunPeg RunPegTotal.
 
 (** intersperse (and repeat = intersperse with the empty separator, intersperse_default = with a
     separator token) *)
@@ -110,3 +114,60 @@ Example C07_example :
   end.
 Proof. vm_compute. split; reflexivity. Qed.
 Print Assumptions C07_example.
+
+(** * The executable specification and the exact answer *)
+
+(** the counting variants report exactly the number of items the collecting variants return *)
+Theorem C07_spec_count_is_length :
+  forall cl lo hi a st sp s,
+  peg2 cl (GRepeatCount lo hi a) s = pcount (peg2 cl (GRepeat lo hi a) s) /\
+  peg2 cl (GRepeatCountUntil lo hi st a) s = pcount (peg2 cl (GRepeatUntil lo hi st a) s) /\
+  peg2 cl (GIntersperseCount lo hi a sp) s = pcount (peg2 cl (GIntersperse lo hi a sp) s) /\
+  peg2 cl (GIntersperseCountUntil lo hi st a sp) s = pcount (peg2 cl (GIntersperseUntil lo hi st a sp) s).
+Proof. intros. repeat split. Qed.
+Print Assumptions C07_spec_count_is_length.
+
+(** without a stop parser a successful repetition holds between [lo] and [hi] items (it FAILS when
+    fewer than [lo] can be taken: [prep] returns PFail from the mandatory phase) *)
+Theorem C07_spec_bounds :
+  forall unitp item lo hi s v s', hi_ok lo hi = true ->
+  prep_top unitp None item lo hi s = Some (POk v s') ->
+  exists l, v = VList l /\ lo <= length l /\ (forall h, hi = Some h -> length l <= h).
+Proof. exact prep_top_bounds. Qed.
+Print Assumptions C07_spec_bounds.
+
+(** every specification result is a suffix-length of the input: repetitions only move forwards, and a
+    repetition with a lower bound of at least one over a non-nullable item consumes *)
+Theorem C07_spec_consumes :
+  forall cl g, nn g = true -> forall s v s', peg2 cl g s = Some (POk v s') -> length s' < length s.
+Proof. exact peg2_lt. Qed.
+Print Assumptions C07_spec_consumes.
+
+(** the interpreter computes the specification, on every well-formed grammar, from every lexer in the
+    scan, with fuel above depth + bytes left + 3 *)
+Theorem C07_exact :
+  forall m, 1 <= tabw m -> forall t, wf_text t ->
+  forall g, wfr g = true ->
+  forall F lx ys c st, Inv m t lx ys -> tdepth g + rem t lx + 3 <= F ->
+  exists r, peg2 (clean t lx ys) g (kept (c_filter lx) ys) = Some r /\ ag2 m t r lx ys (run F g lx c st) st.
+Proof. exact rep_exact. Qed.
+Print Assumptions C07_exact.
+
+(** non-nullable items make progress: the hypothesis of C02's termination theorem is discharged syntactically *)
+Theorem C07_items_make_progress :
+  forall m, 1 <= tabw m -> forall t, wf_text t ->
+  forall g, wfr g = true -> nn g = true -> progress m t g.
+Proof. exact nn_progress. Qed.
+Print Assumptions C07_items_make_progress.
+
+(** concrete: the specification on a token list. intersperse(1..3, both(one a, maybe(one b)), one ,)
+    followed by a dangling separator: three items at most, the fourth separator is not consumed *)
+Example C07_spec_example :
+  let e k i := ((mktok k 0, mkpos i 0 i, mkpos (S i) 0 (S i), Plain) : entry) in
+  let s := [e KA 0; e KB 1; e KComma 2; e KA 3; e KComma 4; e KA 5; e KComma 6; e KA 7; e KComma 8] in
+  match peg2 true (GIntersperseCount 1 (Some 3) (GBoth (GOne KA) (GMaybe (GOne KB))) (GOne KComma)) s with
+  | Some (POk (VNat n) rest) => n = 3 /\ length rest = 3
+  | _ => False
+  end.
+Proof. vm_compute. split; reflexivity. Qed.
+Print Assumptions C07_spec_example.
